@@ -73,6 +73,52 @@ def _oracle(args):
     if used > B: return ('bad', 'more notes have content than there are blocks', R, B)
     return ('ok', None, R, B)
 
+# ---- pairing stream: every marker has exactly one reference and one block in the same provision, in either order ----
+# (no marker with a space: the grammar's FOOTNOTE block line takes [^ \n]+ as marker, so such a reference can never have a block)
+PAIR_MARKERS = ['1', '2', '*', 'a', '1.', 'a:', '(b)', '\u00b9', '12"', "x'", 'a-b', 'A', '10', '**', '\u0663']
+
+def pair_doc(rng):
+    """returns (text, {marker: content token})"""
+    ms = rng.sample(PAIR_MARKERS, rng.randint(1, 4))
+    lines, want = [], {}
+    k = 0
+    for si in range(rng.randint(1, 3)):
+        lines.append('SEC %d - heading%dz' % (si + 1, si))
+        mine = [m for i, m in enumerate(ms) if i % 3 == si % 3] if si < 2 else []
+        items = []
+        for m in mine:
+            k += 1; tok = 'note%dz' % k; want[m] = tok
+            ref = '  ref%dz {{FOOTNOTE %s}} tail%dz' % (k, m, k)
+            blk = ['  FOOTNOTE ' + m, '    ' + tok + ' more%dz' % k]
+            items.append((ref, blk))
+        body = []
+        for ref, blk in items:
+            if rng.random() < 0.5: body += [ref, ''] + blk + ['']        # block after its reference
+            else: body += blk + ['', ref, '']                            # block before its reference
+        if rng.random() < 0.5: body.append('  plain%dz' % si)
+        lines += body or ['  text%dz' % si]
+    return '\n'.join(lines) + '\n', want
+
+def _pair_oracle(args):
+    seed, root = args
+    import random
+    text, want = pair_doc(random.Random(seed))
+    try:
+        xml = impl.parser().parse_to_xml(text, root)
+    except Exception as e:
+        return ('raised', impl.exc_kind(e), text)
+    ns = '{%s}' % xmlsx.NS
+    got = {}
+    for n in xml.iter(ns + 'authorialNote'):
+        got.setdefault(n.get('marker'), []).append(''.join(n.itertext()))
+    for m, tok in want.items():
+        if m not in got: return ('bad', 'no authorial note with marker %r' % m, text)
+        if len(got[m]) != 1 or tok not in got[m][0]:
+            return ('bad', 'the note for marker %r holds %r, not the content of its FOOTNOTE block (%s)' % (m, got[m], tok), text)
+    stubs = [''.join(p_.itertext()) for p_ in xml.iter(ns + 'p') if ''.join(p_.itertext()).startswith('FOOTNOTE') and p_.getparent().tag != ns + 'authorialNote']
+    if stubs: return ('bad', 'a referenced FOOTNOTE block was left as ordinary content: %r' % stubs[:2], text)
+    return ('ok', None, text)
+
 def correspondence(ctx):
     stages.stage_post(ctx, stages.post_cases(ctx, ctx.n(3000, 100000), steps=('displaced', 'displaced', 'all')))
     cs = []
@@ -95,6 +141,13 @@ def search(ctx, budget):
             ctx.failures.append(({'stage': 'e2e', 'uri': c[0], 'root': c[1], 'prefix': c[2], 'text': c[3]}, r[1]))
         elif r[0] == 'ok' and r[2] >= 1 and r[3] >= 1:
             ctx.nontrivial((c[1], c[3]))
+    pj = [(ctx.rng.randrange(1 << 30), ctx.rng.choice(['act', 'bill', 'doc', 'statement', 'debateReport', 'judgment'])) for _ in range(ctx.n(300, 10000) * budget)]
+    for j, r in zip(pj, impl.pmap(_pair_oracle, pj, chunk=16)):
+        ctx.evaluations += 1; ctx.count('pairs_' + r[0])
+        if r[0] == 'bad':
+            ctx.failures.append(({'stage': 'pairs', 'seed': j[0], 'root': j[1], 'text': r[2]}, r[1]))
+        elif r[0] == 'ok':
+            ctx.nontrivial(('pairs',) + j)
     ctx.sample({'root': cs[0][1], 'text': cs[0][3]})
 
 def probe_disagreement(ctx, stage, case):
@@ -108,6 +161,8 @@ def replay(obj):
     case = obj.get('case') or (obj.get('disagreements') or [{}])[0].get('case')
     if not case:
         print('nothing to replay:', obj.get('broken_obligations')); return 1
+    if case.get('stage') == 'pairs':
+        r = _pair_oracle((case['seed'], case['root'])); print(r[:2]); return 1 if r[0] == 'bad' else 0
     ok = stages.replay_stage(case)
     if 'text' in case and 'uri' in case:
         r = _oracle((case['uri'], case['root'], case['prefix'], case['text'])); print('oracle:', r)
